@@ -109,21 +109,27 @@ def isInert : Expr → Bool
 /-- A predicate that relates a tag or field to a reference or literal. -/
 def stablePred (l r : Expr) : Bool := (isRef l && isInert r) || (isInert l && isRef r)
 
+/-- Operators that make a predicate: their value is always a boolean (`Eval` ends every
+comparison with `return false` when the operand types do not fit). -/
+def isPredOp (op : Token) : Bool :=
+  op == .EQ || op == .NEQ || op == .LT || op == .LTE || op == .GT || op == .GTE ||
+  op == .EQREGEX || op == .NEQREGEX
+
 def Expr.isBoolLit : Expr → Bool
   | .boolean _ => true
   | _ => false
 
 /-- The class of the property: `AND` and parentheses anywhere; `OR` only between conditions
 without time comparisons; a time comparison uses one of `= < <= > >=` with `time` on either side
-and one of the listed literal forms on the other; any other predicate either relates a tag or
-field to a reference or literal, or is constant (folded to a boolean by `Reduce`). -/
+and one of the listed literal forms on the other; any other predicate either compares (or matches) a
+tag or field with a reference or literal, or is constant (folded to a boolean by `Reduce`). -/
 def inClass (c : CCtx) : Expr → Bool
   | .binary op l r =>
     if op = .AND then inClass c l && inClass c r
     else if op = .OR then inClass c l && inClass c r && timeFree c.lowerTbl l && timeFree c.lowerTbl r
     else if isTimeRef c.lowerTbl l then isCmpOp op && timeOperand r
     else if isTimeRef c.lowerTbl r then isCmpOp op && timeOperand l
-    else stablePred l r || (reduce c.r (.binary op l r)).isBoolLit
+    else (isPredOp op && stablePred l r) || (reduce c.r (.binary op l r)).isBoolLit
   | .paren e => inClass c e
   | .boolean _ => true
   | _ => false
